@@ -2006,6 +2006,17 @@ class FileSet:
 
         if files is None:
             files = self.find(**find_args)
+        else:
+            # The list may contain file names (or bundles of file names)
+            # instead of FileInfo objects:
+            def to_info(file):
+                if isinstance(file, FileInfo):
+                    return file
+                if isinstance(file, (str, os.PathLike)):
+                    return self.get_info(file)
+                return [to_info(f) for f in file]
+
+            files = [to_info(file) for file in files]
 
         worker_args = (
             (self, file, func, args, kwargs, pass_info, output,
